@@ -33,7 +33,10 @@ ENGINE_NOTE = (COMMON_TRUST + "; scripted loopback API is deterministic and its 
                "--max-failures is exempt like an interruption (DESIGN Appendix F.2)")
 ENGINE_TECH = ("TLA+ design model Engine.tla (plan loop, worker threads, consumer, failure counter, exit code) checked exhaustively by TLC; "
                "EngineFamily.tla enumerates run descriptors; every sampled descriptor x every stop / Ctrl-C position x single faults executed by the real "
-               "engine against a scripted API; each recorded run validated line by line by EngineStream.tla (EventProtocol automaton + accounting)")
+               "engine against a scripted API; each recorded run validated line by line by EngineStream.tla (EventProtocol automaton + accounting) "
+               "and, at the level of the models' own actions, by UnitTrace.tla (free-running unit phases vs Engine.tla), StatefulTrace.tla (stateful phase vs "
+               "Stateful.tla) and EngineTrace.tla (schedules forced from TLC behaviours / counterexamples of the refuted old designs); "
+               "liveness (FairSpec => <>Done) checked by TLC, a hung run is a HANG observation")
 CHECKS.update({
     "C05": dict(engine="Engine", technique=ENGINE_TECH, design_ref="§5 C05, App. A, F.2", note=ENGINE_NOTE,
         text="Model checking + trace validation. TLC checks NoProblemLost/ZeroMeansClean on the design model for all interleavings of 2 workers, "
@@ -50,14 +53,15 @@ CHECKS.update({
         text="Model checking + trace validation. TLC checks AtMostOneAfterStop/MaxFailuresRespected/LaterPhasesSkipped on the design model; the real engine is run "
              "over a sweep of max_examples, max_failures, step counts, workers, unique-inputs and stop positions; the TLA+ trace spec counts requests on the "
              "server log (max-examples for clean operations, duplicates under unique-inputs), delivered failures vs. the limit and skipped later phases, and "
-             "per-thread sends / scenario announcements after the stop request (queue puts are logged under the queue's own mutex). Rate limiting is not covered yet."),
+             "per-thread sends / scenario announcements after the stop request (queue puts are logged under the queue's own mutex), requests per stateful "
+             "scenario vs. the configured step count, and the request rate seen by the API vs. the configured limit."),
 })
 
 CHECKS["C14"] = dict(engine="AuthCache", design_ref="§5 C14, App. F.3",
     technique="TLA+ AuthCache.tla (double-checked locking with expiry) model-checked by TLC for all interleavings; TLC behaviours and the "
               "counterexample of the design without re-check forced step by step onto real threads calling the real caching provider; fetch logs judged "
               "by AuthCacheJudge.tla; Requests.tla enumerates credential/override configurations, the real engine runs them in all phases and every "
-              "received request is judged by RequestsTrace.tla",
+              "received request is judged by RequestsTrace.tla (incl. provider kinds class / cache_by_key / requests-auth object and the per-key fetch budget)",
     text="Model checking + schedule replay + trace validation. The auth cache's fetch-once property is checked on the TLA+ model for 3 threads x 2 keys x all "
          "interleavings (and TLC refutes the design without the in-lock re-check); simulated behaviours are forced onto the real CachingAuthProvider/"
          "KeyedCachingAuthProvider through hook points with a model-driven clock and the recorded fetch log must equal the model's; free-running thread "
